@@ -158,8 +158,24 @@ SWALLOW = (
 PANIC = ("core::result::Result::unwrap", "core::result::Result::expect")
 
 
-def err_arm_returns_err(fn, err_target):
-    """from the Err arm of a match on a Result: every path to a return assigns an Err to the return place"""
+
+def _carries(fn, op, call, depth=0):
+    """the operand is (derived by calls from) the result of `call`"""
+    if depth > 4:
+        return False
+    for o in flow.origins(fn, op):
+        if o.kind == "call":
+            if o.call.bb == call.bb:
+                return True
+            if any(("c" not in a) and _carries(fn, a, call, depth + 1) for a in o.call.args):
+                return True
+    return False
+
+
+def err_arm_returns_err(fn, err_target, same_error_as=None):
+    """from the Err arm of a match on a Result: every path to a return assigns an Err to the return place.  With
+    `same_error_as` (a Call): the Err that is returned carries the error of that call - its payload, possibly handed
+    through converting calls (`From::from`, `take_err(err)`), not some other error that happens to be around"""
     reach = cfg.reach_from(fn, err_target)
     rets = [b for b in fn.returns() if b in reach]
     if not rets:
@@ -172,7 +188,8 @@ def err_arm_returns_err(fn, err_target):
             if s["k"] == "assign" and s["place"] == {"l": 0}:
                 rv = s["rv"]
                 if rv["k"] == "agg" and rv.get("adt") == "core::result::Result" and rv.get("variant") == "Err":
-                    marks.add(b)
+                    if same_error_as is None or _carries(fn, rv["ops"][0], same_error_as):
+                        marks.add(b)
                 elif rv["k"] == "agg" and rv.get("adt") == "core::result::Result":
                     bad.append(b)
                 elif rv["k"] == "use":
@@ -200,7 +217,29 @@ def _or_else_keeps_failing(fn, c):
     return False
 
 
-def disposition(fn, call, _seen=None, _depth=0):
+
+def _is_drop_glue(fn, sb, target):
+    """the switch at sb belongs to drop elaboration (`if discriminant(res) == Err { fields were moved out } else
+    { drop(res) }` at the end of a scope): everything reachable from its arms only drops values, clears drop flags and
+    returns"""
+    for arm in set(fn.succ[sb]):
+        for b in cfg.reach_from(fn, arm):
+            t = fn.term(b)
+            if t["k"] not in ("drop", "goto", "return", "resume", "unreachable", "switch"):
+                return False
+            for s_ in fn.stmts(b):
+                if s_["k"] != "assign":
+                    continue
+                rv = s_["rv"]
+                if rv["k"] == "use" and "c" in rv["op"]:
+                    continue      # drop flag / unit
+                if rv["k"] == "discr":
+                    continue
+                return False
+    return True
+
+
+def disposition(fn, call, _seen=None, _depth=0, same_error=False):
     """how the Result produced by `call` is consumed: list of (kind, detail, bb)
        kinds: 'returned' | 'propagated' | 'swallowed' | 'panics' | 'dropped' | 'matched-not-propagated' | 'escapes'"""
     out = []
@@ -223,14 +262,16 @@ def disposition(fn, call, _seen=None, _depth=0):
         if not errs:
             errs = {other}
         for e in errs:
-            ok, why = err_arm_returns_err(fn, e)
+            if _is_drop_glue(fn, sb, e):
+                continue          # drop elaboration re-reads the discriminant at scope end: not a decision of the code
+            ok, why = err_arm_returns_err(fn, e, same_error_as=(call if same_error else None))
             out.append(("propagated" if ok else "matched-not-propagated", why, e))
     for c in sp.consumers:
         if c.name == "core::result::Result::or_else" and not _or_else_keeps_failing(fn, c):
             # `res.or_else(|_| second_attempt())`: the error is answered with another attempt, whose result replaces it
             out.append(("swallowed", c.name + " with a closure that can succeed", c.bb))
         elif c.name in PASS_THROUGH or c.name.endswith("::Try>::branch"):
-            out += disposition(fn, c, _seen, _depth + 1)
+            out += disposition(fn, c, _seen, _depth + 1, same_error=False)
         elif c.name in SWALLOW:
             out.append(("swallowed", c.name, c.bb))
         elif c.name in PANIC:
